@@ -17,6 +17,8 @@ WireViol(e) ==
 
 ReplyViol(e) ==
     IF e.res = "panic" THEN {"C06/panic/gpu/" \o e.op \o "/" \o e.peer}
+    \* the call did not return even after its connection was shut down: it is not waiting for the peer, it is stuck on itself
+    ELSE IF e.res = "stuck" THEN {"C06/gpu/hang-on-bad-reply/" \o e.op \o "/" \o e.peer, "C10/gpu/call-never-returns-even-after-the-connection-is-gone/" \o e.op}
     ELSE IF e.peer = "auto"
     THEN (IF e.hang THEN {"C06/gpu/hang-on-correct-reply/" \o e.op}
           ELSE IF e.res # "ok" THEN {"C01/gpu/conformant-exchange-failed/" \o e.op}
@@ -29,7 +31,8 @@ ReplyViol(e) ==
 TVInit == l = 1 /\ viol = {} /\ judged = 0 /\ cur = -1
 TVReset == /\ l <= Len(Rec) /\ Rec[l].ev = "reset" /\ cur' = Rec[l].id /\ l' = l + 1 /\ UNCHANGED <<viol, judged>>
 TVCall == /\ l <= Len(Rec) /\ Rec[l].ev = "gcall"
-          /\ viol' = AddViol(viol, WireViol(Rec[l]) \cup ReplyViol(Rec[l]), cur)
+          \* a call that panicked or never returned has no recorded arguments: only its outcome is judged
+          /\ viol' = AddViol(viol, (IF Rec[l].res \in {"panic", "stuck"} THEN {} ELSE WireViol(Rec[l])) \cup ReplyViol(Rec[l]), cur)
           /\ judged' = judged + 1 /\ l' = l + 1 /\ UNCHANGED cur
 TVTeardown == /\ l <= Len(Rec) /\ Rec[l].ev = "teardown"
               /\ viol' = AddViol(viol, TeardownViol(Rec[l], "gpu-proxy"), cur)
